@@ -182,7 +182,7 @@ func predCase(caseID string, seed int64) {
 				ts = append(ts, at(sg.TruncatedAt).add(D).add(1)) // decoy: truncation point instead of end
 			}
 			if D != 0 {
-				ts = append(ts, e.add(1), e.add(-1))               // decoy: duration ignored
+				ts = append(ts, e.add(1), e.add(-1))                // decoy: duration ignored
 				ts = append(ts, e.add(p.ShardGroupDuration).add(1)) // decoy: shard duration instead of duration
 				ts = append(ts, e.add(D).add(-p.ShardGroupDuration), e.add(D).add(p.ShardGroupDuration))
 			} else {
